@@ -45,6 +45,7 @@ class C09(Check):
         import cirq
         repoenv.assert_working_tree(cirq)
         from engines import qgen, qdrive, qref, scripted_prng  # noqa: F401
+        qdrive.install_deterministic_state_hash()
         self.cirq = cirq
         self.qgen, self.qdrive, self.sp = qgen, qdrive, scripted_prng
 
@@ -162,6 +163,7 @@ class C09(Check):
 
     def run_one(self, tape, ctx: Ctx) -> None:
         cirq = self.cirq
+        self.qdrive.reset_state_hash_counter()
         qgen, qdrive = self.qgen, self.qdrive
         ctx.workload = "channels"
         use_noise_model = tape.chance(1, 3, "noise-model?")
